@@ -86,8 +86,8 @@ type c16Rec struct {
 }
 
 type c16Ref struct {
-	recs    map[string]c16Rec   // logical key asset|source|ts
-	feeders map[string]bool     // name -> active (absent = not registered)
+	recs    map[string]c16Rec    // logical key asset|source|ts
+	feeders map[string]bool      // name -> active (absent = not registered)
 	infos   map[string][2]string // denom -> display, decimal
 	t, h    uint64
 	seq     int
